@@ -25,6 +25,10 @@
 (* flag belongs to the open file description they share.  Named deviation      *)
 (* "keyed_by_number" (the first version of this round's fix): the calls in     *)
 (* progress are counted per descriptor number.                                 *)
+(* Named deviation "uncounted_joiner" (seeded/C15-2): only the call that       *)
+(* finds the count at zero sets the flag - and only it is counted, so a call   *)
+(* that joins and leaves first takes the forcing away from under the parked    *)
+(* one, whose next kernel call parks the thread (the event loop stalls).       *)
 (* The descriptor may also be closed (by a third party, through the hooked     *)
 (* close) while calls are parked on it - the usual way to get rid of a reader. *)
 (* The calls then come back with the kernel's EBADF; putting the mode back     *)
@@ -68,8 +72,9 @@ Look(c) ==
 Enter(c) ==
   /\ pc[c] = "looked" /\ ~died
   /\ flag' = IF believes[c] THEN TRUE ELSE flag
-  /\ forced' = IF believes[c] /\ ~Dev("mode_from_flag") THEN forced + 1 ELSE forced
-  /\ forcedN' = IF believes[c] /\ ~Dev("mode_from_flag") THEN [forcedN EXCEPT ![Num(c)] = @ + 1] ELSE forcedN
+  /\ LET counted == believes[c] /\ ~Dev("mode_from_flag") /\ (Dev("uncounted_joiner") => forced = 0) IN
+     /\ forced' = IF counted THEN forced + 1 ELSE forced
+     /\ forcedN' = IF counted THEN [forcedN EXCEPT ![Num(c)] = @ + 1] ELSE forcedN
   /\ pc' = [pc EXCEPT ![c] = "in"]
   \* (forcing the flag on a descriptor closed since the look fails just like putting it back)
   /\ died' = (died \/ (believes[c] /\ ~open /\ Dev("restore_asserts")))
@@ -124,4 +129,6 @@ ModeRestoredWhenQuiet == (open /\ \A c \in Callers : pc[c] = "idle") => (flag = 
 NeverAsksBlocking == ~askedBlk
 \* a descriptor closed under a parked call costs that call, not the process
 NoAbort == ~died
+\* while a call of a caller that left the descriptor blocking is in progress, the descriptor stays forced
+ForcedWhileInProgress == (open /\ \E c \in Callers : pc[c] \in {"in", "wait"} /\ believes[c]) => flag
 =============================================================================
